@@ -56,7 +56,7 @@ Proof.
   intros Hk Hres Hb Hp Hin Hbeh Hchk Hd (s & u & m & ->) Hu Hs Hdp.
   apply (open_denotes W fuel root name d Hn Ho Hkn xv Hx k pname e (XObj s u m)); try assumption.
   unfold spec_open. rewrite Hp, Hin, Hchk, Hu. apply Nat.leb_le in Hdp. rewrite Hdp. cbn [orb negb].
-  unfold prov_out. rewrite Hbeh. apply Nat.leb_le in Hdp. apply export_unexport; assumption.
+  unfold prov_out. rewrite Hbeh. apply Nat.leb_le in Hdp. apply export_unexport; [assumption|lia|assumption].
 Qed.
 
 Theorem open_const_denotes k pname p e xin cv :
@@ -70,7 +70,7 @@ Proof.
   intros Hk Hres Hb Hp Hin Hbeh Hchk Hd (s & u & m & ->) Hu Hdp Hs Hdc.
   apply (open_denotes W fuel root name d Hn Ho Hkn xv Hx k pname e (XObj s u m)); try assumption.
   unfold spec_open. rewrite Hp, Hin, Hchk, Hu. apply Nat.leb_le in Hdp. rewrite Hdp. cbn [orb negb].
-  unfold prov_out. rewrite Hbeh. apply export_unexport; assumption.
+  unfold prov_out. rewrite Hbeh. apply export_unexport; [assumption|lia|assumption].
 Qed.
 
 End KNOWN.
@@ -83,7 +83,7 @@ Proof. destruct f; reflexivity. Qed.
 Theorem tostring_chain_denotes k e :
   alookup k (ed_values d) = Some (EToString e) -> reserved k = false ->
   exists va, done (memo (snd r)) (name, [IKey k; IIdx 0]) = Some va /\
-    forall s sec, to_string big_fuel va = (s, false, sec) ->
+    forall s sec, to_string (ts_need va) va = (s, false, sec) ->
       export big_fuel (property k (fst r)) = Some (XScalar sec false (SStr s)).
 Proof.
   intros Hk Hres. destruct fuel as [|f]; [discriminate Ho|].
@@ -114,7 +114,7 @@ Theorem tostring_of_key_denotes k a k1 e1 :
   alookup k (ed_values d) = Some (EToString (ESym [a])) -> reserved k = false ->
   object_key a = Some k1 -> reserved k1 = false -> alookup k1 (ed_values d) = Some e1 ->
   exists va, property k1 (fst r) = va ++ property k1 (tl (fst r)) /\
-    forall s sec, to_string big_fuel va = (s, false, sec) ->
+    forall s sec, to_string (ts_need va) va = (s, false, sec) ->
       export big_fuel (property k (fst r)) = Some (XScalar sec false (SStr s)).
 Proof.
   intros Hk Hres Ha Hres1 Hk1.
